@@ -95,7 +95,7 @@ PLANS = {
         sany=["DltCodec.tla", "mc/MCCodec.tla", "trace/TraceSlice.tla"],
         steps=[
             mc("codec", "MCCodec", "MCCodec_quick.cfg", "MCCodec_thorough.cfg", replay=("slice", "prefix")),
-            rec("slice", "prefix", "TraceSlice", 500, 12000, 2, 8),
+            rec("slice", "prefix", "TraceSlice", 500, 40000, 2, 10),
         ],
         rule=SLICE_RULE + " One event / case = all cuts of one message.",
         explanation="MC: theorem PrefixIncomplete on every builder message: every proper prefix decodes to `inc`; the skipper gives `none` on empty input and `inc` on every other "
@@ -107,7 +107,7 @@ PLANS = {
         steps=[
             mc("junk", "MCJunk", "MCJunk_quick.cfg", "MCJunk_thorough.cfg", replay=("slice", "search", "search,junk")),
             mc("session", "MCSession", "MCSession_quick.cfg", "MCSession_thorough.cfg"),
-            rec("slice", "junk", "TraceSlice", 1000, 30000, 2, 8),
+            rec("slice", "junk", "TraceSlice", 1000, 100000, 2, 12),
         ],
         rule=SLICE_RULE,
         explanation="MC: all junk strings over {D, L, T, 0x01, X} up to length 5 (quick, 3906) / 7 (thorough, 97656): the search equals the declarative least occurrence, "
@@ -120,7 +120,7 @@ PLANS = {
         steps=[
             mc("filter", "MCFilter", "MCFilter_quick.cfg", "MCFilter_thorough.cfg", replay=("slice", "filter"), workers=12),
             mc("session", "MCSession", "MCSession_quick.cfg", "MCSession_thorough.cfg"),
-            rec("slice", "filter", "TraceSlice", 1000, 30000, 2, 8),
+            rec("slice", "filter", "TraceSlice", 1000, 150000, 2, 12),
         ],
         rule=SLICE_RULE,
         explanation="MC: DroppedOp (decision procedure in the parser's order) = Dropped (declarative rule of the statement) for every numeric level (quick: 0,1,3,6,7,255; thorough: "
@@ -133,7 +133,7 @@ PLANS = {
         sany=["DltCodec.tla", "mc/MCConstruct.tla", "trace/TraceSlice.tla"],
         steps=[
             mc("construct", "MCConstruct", "MCConstruct_quick.cfg", "MCConstruct_thorough.cfg", replay=("slice", "verdict")),
-            rec("slice", "construct", "TraceSlice", 1500, 40000, 2, 8),
+            rec("slice", "construct", "TraceSlice", 1500, 200000, 2, 12),
         ],
         rule=SLICE_RULE,
         explanation="MC: all type lists of length <= 2 (quick) / 3 (thorough) over the 16 supported signal types x both byte orders: the exact payload decodes to one argument per "
@@ -156,7 +156,7 @@ PLANS = {
         sany=["DltCodec.tla", "mc/MCZStr.tla", "trace/TraceSlice.tla"],
         steps=[
             mc("zstr", "MCZStr", "MCZStr_quick.cfg", "MCZStr_thorough.cfg", replay=("slice", "verdict")),
-            rec("slice", "zstr", "TraceSlice", 2000, 60000, 2, 8),
+            rec("slice", "zstr", "TraceSlice", 2000, 400000, 2, 12),
         ],
         rule=SLICE_RULE,
         explanation="MC: all byte strings of length <= 4 (quick, 11 111) / 5 (thorough, 111 111) over {NUL, 'A', and the bytes of complete / incomplete 2-, 3-, 4-byte UTF-8 "
@@ -182,7 +182,7 @@ PLANS = {
         sany=["DltBuild.tla", "trace/TraceBuild.tla"],
         steps=[
             mc("numeric", "MCNumeric", "MCNumeric_quick.cfg", "MCNumeric_thorough.cfg", replay=("build", "ts", "ts")),
-            rec("build", "ts", "TraceBuild", 1500, 60000, 2, 8),
+            rec("build", "ts", "TraceBuild", 1500, 1500000, 2, 12),
         ],
         rule="boundary inputs (0, unit +-1, 2^32*unit +-1, powers of two and ten +-1, remainders that overflow a 32-bit product) and seeded random u64; distinct by the hash of the JSON line",
         explanation="The model is two lines (drop the last limb(s) of the base-1000 numeral of the input, obtained textually from its decimal string); its value is an independent statement "
@@ -194,7 +194,7 @@ PLANS = {
         sany=["DltBuild.tla", "trace/TraceBuild.tla"],
         steps=[
             mc("numeric", "MCNumeric", "MCNumeric_quick.cfg", "MCNumeric_thorough.cfg", replay=("build", "real", "real")),
-            rec("build", "real", "TraceBuild", 3000, 100000, 2, 8),
+            rec("build", "real", "TraceBuild", 3000, 1500000, 2, 12),
         ],
         rule="seeded random arguments biased to the fixed-point kinds: every integer width as carried value, quantizations incl. 0, tiny, NaN, +-inf, negative, random bit patterns, "
              "offsets incl. 0, +-1, +-200, i32/i64 min/max, random; non-trivial = fixed-point data present; distinct by the hash of the JSON line",
